@@ -423,6 +423,33 @@ Proof. intros HT Hin E step. unfold step. rewrite (table_fixpoint fixed G order 
   rewrite (fold_decisions fixed G order rd inp HT); [reflexivity|].
   intros d Hd. apply (Topo_refs G order (topo_ok_Topo _ _ HT) id Hin). unfold refs. rewrite E. apply in_or_app. right. apply in_or_app. left. exact Hd. Qed.
 
+(* A decision service returns its output decisions' values: the encapsulated and output decisions are evaluated on the
+   input context the service builds (its input data, and its input decisions as parameters taken from the caller's input). *)
+Definition service_input (G : graph) (step : kind -> N -> env -> env -> env) (ins indecs : list N) (inp : env) : env :=
+  let idr := fold_left (fun acc d => step KDec d inp acc) indecs [] in
+  let idn := dec_names G indecs in
+  let e1 := fold_left (fun acc nm => set nm (getv nm idr) acc) idn [] in
+  let e2 := fold_left (fun acc nm => set nm (getv nm inp) acc) idn e1 in
+  inputs_into G ins inp e2.
+
+Theorem service_outputs fixed G order id name ins indecs encs outs inp out : topo_ok G order = true -> In id order ->
+  find id G = Some (NSvc name ins indecs encs outs) ->
+  let step := spec_step eval fixed G order in
+  let e3 := service_input G step ins indecs inp in
+  let results := zip (zip [] (dec_binds G step encs e3)) (dec_binds G step outs e3) in
+  step KSvc id inp out =
+  match dec_names G outs with
+  | [n] => match lookup n results with Some v => set name v out | None => out end
+  | ons => set name (VCtx (fold_left (fun acc n => match lookup n results with Some v => set n v acc | None => acc end) ons [])) out
+  end.
+Proof. intros HT Hin E step e3 results. unfold step. rewrite (table_fixpoint fixed G order id KSvc inp out HT Hin). unfold body at 1. rewrite E. cbv zeta.
+  fold (service_input G (spec_step eval fixed G order) ins indecs inp). fold step. fold e3.
+  assert (Hr : forall l, incl l (indecs ++ encs ++ outs) -> forall d, In d l -> In d order \/ find d G = None).
+  { intros l Hl d Hd. apply (Topo_refs G order (topo_ok_Topo _ _ HT) id Hin). unfold refs. rewrite E. apply Hl. exact Hd. }
+  unfold step. rewrite (fold_decisions fixed G order encs e3 HT); [|apply Hr; apply incl_appr, incl_appl, incl_refl].
+  rewrite (fold_decisions fixed G order outs e3 HT); [|apply Hr; apply incl_appr, incl_appr, incl_refl].
+  reflexivity. Qed.
+
 (* contexts built by set_entry have distinct names *)
 Lemma nodup_set k v e : NoDup (map fst e) -> NoDup (map fst (set k v e)).
 Proof. induction e as [|[k' x] r IH]; intros H; cbn [set]; [constructor; [intros []|constructor]|].
